@@ -363,6 +363,10 @@ def read_import(file, *targets):
   sys.path.append('.')
   results = []
   globals = {}
+  # the file may have been (re)written since the last import
+  import importlib
+  importlib.invalidate_caches()
+  sys.modules.pop(file, None)
   try:
     if _dir: os.chdir(_dir)
     if len(targets):
